@@ -1,0 +1,17 @@
+//go:build verif
+
+package heap
+
+// VerifDump returns the heap array (names and priorities in array order) and a copy
+// of the name index. Read-only; used by the verification harness in /verif.
+func (h *Heap) VerifDump() (names []string, priorities []int, index map[string]int) {
+	index = make(map[string]int, len(h.pq.names))
+	for _, it := range h.pq.queue {
+		names = append(names, it.name)
+		priorities = append(priorities, it.priority)
+	}
+	for k, v := range h.pq.names {
+		index[k] = v
+	}
+	return names, priorities, index
+}
